@@ -181,6 +181,16 @@ def clusterStep (s : CSt) (now : Int) (op : String) (a : List String) : Option (
     -- wb.del <i> <P|B> <dmap> <key>: a copy removed behind the system's back
     let kind := if arg 1 == "B" then Kind.bak else Kind.prim
     some ({ s with cl := s.cl.setCopy (nat (arg 0)) kind (arg 2).toUTF8.toList (unhx (arg 3)) none }, "ok")
+  | "wb.merge" =>
+    -- wb.merge <i> <P|B> <dmap> <key>:<val>:<ttl>:<ts> ...: tables of a fragment hand-over received by member i.
+    -- `refused` (the member does not own the partition) is decided by the harness from the routing table
+    let kind := if arg 1 == "B" then Kind.bak else Kind.prim
+    let incs : List (Key × Copy) := (a.drop 3).filterMap (fun e =>
+      match e.splitOn ":" with
+      | [k, v, ttl, ts] => some (unhx k, (⟨unhx v, int ttl, int ts⟩ : Copy))
+      | _ => none)
+    let (cl', res) := DMap.mergeEntries s.cl (nat (arg 0)) kind (arg 2).toUTF8.toList incs
+    some ({ s with cl := cl' }, fmtDRes res)
   | "wb.put" =>
     -- wb.put <i> <P|B> <dmap> <key> <val> <ttl> <ts>: a copy planted behind the system's back
     let kind := if arg 1 == "B" then Kind.bak else Kind.prim
